@@ -201,3 +201,13 @@ def front (cfg : Cfg) (fs : FS) (builtins : Registry) (root : APath) : Outcome :
   | .ok (r, _) => if r.errors.isEmpty then .ok else .diags r.errors
 
 end Pydjinni.Front
+
+namespace Pydjinni.Front
+
+/-- `front` together with the bindings of all resolved references (for C04) and the final registry -/
+def frontWithBindings (cfg : Cfg) (fs : FS) (builtins : Registry) (root : APath) : Outcome × Resolved × Registry × List APath :=
+  match parseOne cfg fs (fs.files.length + 2) [] (normPath root) root { reg := builtins } with
+  | .error a => (.abort a, [], [], [])
+  | .ok (r, st) => (if r.errors.isEmpty then .ok else .diags r.errors, st.resolved, st.reg.drop builtins.length, st.imported)
+
+end Pydjinni.Front
